@@ -67,6 +67,7 @@ type c14Round struct {
 	statted map[core.TractID]map[int]c14StatInfo // stamps collected: tract -> host -> replica history at the stat
 	source  map[core.TractID]int                 // replica PackTracts copied the tract from
 	hinted  bool
+	base    int64 // first chunk id AllocateRSChunkIDs returned to this round (0 = none yet)
 }
 
 type c14Fin struct {
@@ -92,7 +93,11 @@ type C14 struct {
 	stamps   map[[3]uint64][2]int64 // (ts, tract key, real stamp) -> (epoch, count)
 	attempts map[[2]uint64]int      // (ts, tract key) -> executed write attempts
 	failMask map[int]bool           // sources whose nested reads fail during the current PackTracts
-	lastSrc  map[core.TractID]int   // last source asked per tract during the current PackTracts
+	failPair map[[2]uint64]bool     // (tract, source) reads that fail during the current PackTracts
+	nextFail map[[2]uint64]bool     // chosen by the scheduler for the next PackTracts step
+	K        int                    // tracts per piece: the round packs towards Target = K * padToLength
+	Target   int
+	lastSrc  map[core.TractID]int // last source asked per tract during the current PackTracts
 	taint    map[core.TractID]string
 	Steps    int
 	NRounds  int
@@ -114,7 +119,7 @@ func NewC14(r *vw.Rng, nTS int, cache bool, caseID string) *C14 {
 	rand.Seed(int64(r.U64() >> 1))
 	d := &C14{Cl: NewCluster(nTS, []bool{cache, false}), R: r, Case: caseID, Wid: 1, Cache: cache,
 		known: map[*RPC]bool{}, stamps: map[[3]uint64][2]int64{}, attempts: map[[2]uint64]int{},
-		taint: map[core.TractID]string{}, Stats: map[string]int{}}
+		taint: map[core.TractID]string{}, Stats: map[string]int{}, K: 1, Target: C14Target}
 	d.Cl.NestedFail = d.nestedFail
 	d.line([]int64{1, int64(nTS), 2, b2i(cache), 0}, nil)
 	return d
@@ -145,9 +150,16 @@ func (d *C14) TID(blob, tract int) core.TractID {
 	return core.TractID{Blob: d.Blobs[blob].ID, Index: core.TractKey(tract)}
 }
 
+// SetPieceTracts makes the rounds of this case pack k tracts into every piece (Target = k * padToLength).
+// Only k = 1 is in the model's regime: cases with k > 1 are judged by the monitors alone (no trace).
+func (d *C14) SetPieceTracts(k int) { d.K, d.Target = k, k*C14Target }
+
 func (d *C14) nestedFail(from, to int, id core.TractID, version int) bool {
 	if d.lastSrc != nil {
 		d.lastSrc[id] = to
+	}
+	if d.failPair != nil && d.failPair[[2]uint64{tkey(id), uint64(to)}] {
+		return true
 	}
 	return d.failMask != nil && d.failMask[to]
 }
@@ -506,7 +518,7 @@ func (d *C14) StartRound() {
 	termBefore := d.Cl.D.Term()
 	hook := d.hook(cur.Gen)
 	m.op = d.Cl.S.Go("round", m, func() interface{} {
-		cur.C14RoundInto(m.info, C14Target, hook)
+		cur.C14RoundInto(m.info, d.Target, hook)
 		return nil
 	})
 	d.rounds = append(d.rounds, m)
@@ -577,7 +589,7 @@ func (d *C14) allocHint(m *c14Round, base int64, fresh []*RPC) []int64 {
 		}
 		for j := 0; j < C14N; j++ {
 			ch := info.Chunks[i*C14N+j]
-			if len(ch.Tracts) != 1 {
+			if len(ch.Tracts) != 1 && d.K == 1 {
 				d.report("harness/unmodelled-layout", "a chunk with other than one tract: outside the modelled regime", nil)
 			}
 			t := ch.Tracts[0]
@@ -670,15 +682,35 @@ func (d *C14) Step(r *RPC, mode int, failSrc []int) {
 		mode = ModeDeliver
 	}
 	op := append([]int64{7, int64(mode)}, d.descr(r)...)
-	op = append(op, int64(len(failSrc)))
 	d.failMask = nil
+	d.failPair = nil
 	d.lastSrc = nil
+	if r.Kind == KPackTracts && d.nextFail != nil {
+		// per-(tract, source) failures chosen by the scheduler; with one tract per piece (the modelled
+		// regime) they are exactly "these sources fail during this PackTracts"
+		d.failPair = d.nextFail
+		seen := map[int]bool{}
+		for k := range d.nextFail {
+			if !seen[int(k[1])] {
+				seen[int(k[1])] = true
+				failSrc = append(failSrc, int(k[1]))
+			}
+		}
+		sort.Ints(failSrc)
+		if d.K == 1 {
+			d.failPair = nil // same thing, expressed per source as the model's line says
+		}
+	}
+	d.nextFail = nil
+	op = append(op, int64(len(failSrc)))
 	if r.Kind == KPackTracts {
 		d.failMask = map[int]bool{}
 		d.lastSrc = map[core.TractID]int{}
 		for _, h := range failSrc {
 			op = append(op, int64(h))
-			d.failMask[h] = true
+			if d.failPair == nil {
+				d.failMask[h] = true
+			}
 		}
 	} else {
 		op[len(op)-1] = 0
@@ -726,7 +758,7 @@ func (d *C14) Step(r *RPC, mode int, failSrc []int) {
 		reply = d.replyLine(r)
 	}
 	d.monitorStep(r, mode, executed, tid, preDur, termBefore)
-	d.failMask, d.lastSrc = nil, nil
+	d.failMask, d.failPair, d.lastSrc = nil, nil, nil
 	allocRound := d.roundByOp(r)
 	var parity []int64
 	if executed && r.Kind == KRSEncode && len(reply) == 1 && reply[0] == 0 {
@@ -865,6 +897,9 @@ func (d *C14) monitorStep(r *RPC, mode int, executed bool, tid core.TractID, pre
 			}
 		}
 	case KC14Alloc:
+		if v, ok := r.Result.(c14dur); ok && v.err == core.NoError && m != nil {
+			m.base = int64(v.id.ID)
+		}
 		if v, ok := r.Result.(c14dur); ok && v.err == core.NoError && m != nil && m.info.Term != termBefore {
 			d.report("durable-step-applied-under-stale-term", "AllocateRSChunkIDs was applied although the term had changed since the round started", nil)
 		}
@@ -1059,12 +1094,64 @@ func (d *C14) pickMode(w C14Weights, r *RPC) int {
 	return ModeDeliver
 }
 
+// packFail chooses, for a PackTracts step, which CtlRead calls of the destination fail: per tract of the
+// piece (first / middle / last / only) none, one, several or all of its sources.  The choice is left in
+// d.nextFail for Step.
 func (d *C14) packFail(w C14Weights, r *RPC) []int {
 	if r.Kind != KPackTracts || d.R.Intn(1000) >= w.PPackFail {
 		return nil
 	}
-	k := d.R.Range(1, len(d.Cl.TS)-1)
-	return []int{k}
+	m := d.roundOfGen(r.Gen)
+	if m == nil || m.base == 0 {
+		return nil
+	}
+	j := r.Aux[2] - m.base
+	idx := int(j/int64(C14N+C14M))*C14N + int(j%int64(C14N+C14M))
+	if j < 0 || j%int64(C14N+C14M) >= C14N || idx >= len(m.info.Chunks) {
+		return nil
+	}
+	specs := m.info.Chunks[idx].Tracts
+	fail := map[[2]uint64]bool{}
+	// at least one tract of the piece is hit; which one is drawn uniformly over the positions
+	hit := d.R.Intn(len(specs))
+	for ti, sp := range specs {
+		if ti != hit && !d.R.Chance(1, 4) {
+			continue
+		}
+		pos := "middle"
+		switch {
+		case len(specs) == 1:
+			pos = "only"
+		case ti == 0:
+			pos = "first"
+		case ti == len(specs)-1:
+			pos = "last"
+		}
+		var from []int
+		for _, a := range sp.From {
+			from = append(from, int(a.ID))
+		}
+		if len(from) == 0 {
+			continue
+		}
+		mode := d.R.PickInt(0, 1, 2, 2)
+		n := 1
+		name := "one"
+		switch {
+		case mode == 2 || len(from) == 1:
+			n, name = len(from), "all"
+		case mode == 1 && len(from) > 2:
+			n, name = d.R.Range(2, len(from)-1), "several"
+		}
+		for _, pi := range d.R.Perm(len(from))[:n] {
+			fail[[2]uint64{tkey(sp.ID), uint64(from[pi])}] = true
+		}
+		d.Stats["packfail."+pos+"."+name]++
+	}
+	if len(fail) > 0 {
+		d.nextFail = fail
+	}
+	return nil
 }
 
 func (d *C14) writeShape() (int, int, int64, int) {
